@@ -62,7 +62,22 @@ RECIPES = [
     ("lit2", lambda b, p: b.entity(p + ":e3", {p + ":a": Literal("x", langtag="fr")})),
     ("spec", lambda b, p: b.specialization(p + ":e1", p + ":e2")),
     ("mention", lambda b, p: b.mention(p + ":e1", p + ":e2", p + ":bb")),
+    ("mention0", lambda b, p: b.mention(p + ":e1", p + ":e2", None)),
+    # observers interleaved with construction must not matter (hash / == are pure)
+    ("a1-hashed-then-timed", lambda b, p: _hashed_then(b.activity(p + ":a1"), lambda r: r.set_time(datetime.datetime(2020, 1, 1)))),
+    ("a1-timed", lambda b, p: b.activity(p + ":a1", datetime.datetime(2020, 1, 1))),
+    ("col-hashed-then-typed", lambda b, p: _hashed_then(b.entity(p + ":c1"), lambda r: r.add_asserted_type(QualifiedName(Namespace("prov", "http://www.w3.org/ns/prov#"), "Collection")))),
+    ("col", lambda b, p: b.collection(p + ":c1")),
 ]
+
+
+def _hashed_then(rec, mutate):
+    hash(rec)
+    rec == rec
+    mutate(rec)
+    return rec
+
+
 NAMES = [n for n, _ in RECIPES]
 FN = dict(RECIPES)
 
@@ -88,6 +103,7 @@ def specs(rnd, budget):
     for recs in singles + pairs:
         for prefix in ("ex", "other"):
             out.append((prefix, recs, []))
+    must = [("ex", [n], []) for n in ("mention0", "spec", "a1-hashed-then-timed", "a1-timed", "col-hashed-then-typed", "col")]
     for recs in singles[:8]:
         for brecs in ([], ["e1"], ["gen"], ["gen-id"]):
             out.append(("ex", recs, [("b1", brecs)]))
@@ -98,7 +114,7 @@ def specs(rnd, budget):
     out.append(("ex", ["gen", "e1"], []))
     out.append(("ex", ["e1", "gen"], []))
     rnd.shuffle(out)
-    return out[:budget]
+    return must + out[:budget]
 
 
 def check_pair(sa, sb, failures):
@@ -177,7 +193,8 @@ def main():
     n = 0
     pairs = list(itertools.product(sp, repeat=2))
     rnd.shuffle(pairs)
-    for sa, sb in pairs[: 3000 if a.tier == "quick" else 40000]:
+    first = list(itertools.product(sp[:6], repeat=2))  # the hand-picked specs are always compared with each other
+    for sa, sb in first + pairs[: 3000 if a.tier == "quick" else 40000]:
         n += 1
         check_pair(sa, sb, failures)
     # transitivity on sampled triples of equal-looking documents
